@@ -570,6 +570,8 @@ def r8_pending_block(ck, F):
             ck.ob(R, f"flush-guard/{path.split('::')[-1]}", ok, f"data block flush is guarded by {guards}", b, site)
     # the backward scan enters the previous index block at its last entry (shared with C03-R5)
     r5_wrappers(ck, F, R)
+    from .c03 import r3_reset
+    r3_reset(ck, F, R)
 
 
 def r7_mirror(ck, F, R="C01-R7"):
